@@ -135,19 +135,30 @@ Definition insert (U : univ) (c : cfg) (T : repo) (M : list revid) : repo :=
        (union (refill U c T M) (union M (invs T)))
        (tunion (sent_texts U c M) (texts T)).
 
+(* RepoFetcher._fetch_everything_for_search for the revisions M: nothing to do when the search is
+   empty; otherwise refuse an incompatible pair, else insert the stream *)
+Definition transfer (U : univ) (c : cfg) (T : repo) (M : list revid) : outcome * nat * repo :=
+  match M with
+  | [] => (FOk, 0, T)
+  | _ => if incompat c then (FIncompatible, 0, T)
+         else (FOk, List.length M, insert U c T M)
+  end.
+
 (* Repository.fetch(source, revision_id=r, find_ghosts=fg) / Branch.pull / Branch.push
-   (the branch entry points always use find_ghosts=False).  Returns the outcome, the
-   number of revisions copied, the new target. *)
+   (the branch entry points always use find_ghosts=False); ControlDir.sprout into a new
+   repository is the same with an empty target.  Returns the outcome, the number of revisions
+   copied, the new target. *)
 Definition fetch (U : univ) (c : cfg) (F T : repo) (fg : bool) (r : revid) : outcome * nat * repo :=
   let vis := vis_of F T in
   if negb (srcp U r) && (fg || negb (memb r vis)) then (FNoSuchRevision, 0, T)
-  else
-    let M := missing U fg vis r in
-    match M with
-    | [] => (FOk, 0, T)
-    | _ => if incompat c then (FIncompatible, 0, T)
-           else (FOk, List.length M, insert U c T M)
-    end.
+  else transfer U c T (missing U fg vis r).
+
+(* Repository.fetch(source) without a revision (EverythingNotInOther: all_revision_ids of the
+   source minus those the target sees) *)
+Definition missing_all (U : univ) (vis : list revid) : list revid :=
+  filter (fun a => negb (memb a vis)) (seq 0 (List.length (ug U))).
+Definition fetch_all (U : univ) (c : cfg) (F T : repo) : outcome * nat * repo :=
+  transfer U c T (missing_all U (vis_of F T)).
 
 (* commit of the universe's revision c into the target (its parents that exist are
    visible: precondition checked by the harness) *)
@@ -166,11 +177,12 @@ Definition commit (U : univ) (c : cfg) (F T : repo) (r : revid) : outcome * nat 
     end
   else (FOk, 1, Repo (add r (revs T)) (add r (invs T)) (tunion own (texts T))).
 
-Inductive op := OFetch (fg : bool) (r : revid) | OCommit (r : revid).
+Inductive op := OFetch (fg : bool) (r : revid) | OFetchAll | OCommit (r : revid).
 
 Definition step (U : univ) (c : cfg) (F T : repo) (o : op) : outcome * nat * repo :=
   match o with
   | OFetch fg r => fetch U c F T fg r
+  | OFetchAll => fetch_all U c F T
   | OCommit r => commit U c F T r
   end.
 
